@@ -185,8 +185,10 @@ function runCase(spec, abuf, bbuf) {
   // the export lists must agree (names and kinds, in order)
   const ea = WebAssembly.Module.exports(ma).map(e => e.name + ':' + e.kind).join(','), eb = WebAssembly.Module.exports(mb).map(e => e.name + ':' + e.kind).join(',');
   if (ea !== eb) return { verdict: 'diff', detail: 'export lists differ: ' + ea + ' vs ' + eb };
-  const specB = spec.specB || spec;
-  const A = new Side(ma, spec), B = new Side(mb, specB);
+  // both sides get objects for *all* of the input's imports (a pass may have dropped some from
+  // the output; extra entries in an import object are ignored by instantiation), so that state
+  // the input can reach through an import is compared even if the output no longer imports it
+  const A = new Side(ma, spec), B = new Side(mb, spec);
   let states = 0, transitions = 0;
   let d = compareInstantiate(A, B); transitions++;
   if (spec.skip_if_input_fails && A.instErr) return { verdict: 'skip', detail: 'input does not instantiate: ' + A.instErr, states: 0, transitions };
